@@ -313,23 +313,6 @@ func dustCorpus(w *amm.World, ctx sdk.Context, add func(term string, info map[st
 			return fmt.Errorf("dust corpus setup: %w", err)
 		}
 	}
-	// a position whose upper (lower) tick IS the pool's current tick is out of range (in range): open
-	// both, deep, then trade both ways - the curve is the one of the positions that contain the cursor
-	if pool, found, _ := w.K.GetPool(ctx, p.ID); found {
-		cur := pool.CurrentTick
-		_ = step(ctx, amm.Op{Kind: "create", Sender: 2, Lower: cur - 30, Upper: cur, Base: zero, Quote: new(big.Int).Mul(big.NewInt(40), e26), MinBase: zero, MinQuote: zero, Tag: "corpus/boundary/upper-on-current-tick"})
-		_ = step(ctx, amm.Op{Kind: "create", Sender: 2, Lower: cur, Upper: cur + 25, Base: new(big.Int).Mul(big.NewInt(3), e26), Quote: new(big.Int).Mul(big.NewInt(3), e26), MinBase: zero, MinQuote: zero, Tag: "corpus/boundary/lower-on-current-tick"})
-		for _, o := range []amm.Op{
-			{Kind: "swap", Sender: 2, ExactIn: true, DenomIn: 1, Amount: new(big.Int).Div(e26, big.NewInt(1000)), Tag: "corpus/boundary/quote-in"},
-			{Kind: "swap", Sender: 2, ExactIn: true, DenomIn: 0, Amount: new(big.Int).Div(e26, big.NewInt(700)), Tag: "corpus/boundary/base-in"},
-			{Kind: "swap", Sender: 2, ExactIn: false, DenomIn: 0, Amount: new(big.Int).Div(e26, big.NewInt(900)), Tag: "corpus/boundary/exact-out-base-in"},
-		} {
-			c, _ := ctx.CacheContext()
-			if err := step(c, o); err == nil {
-				st.Nontriv(o.Tag)
-			}
-		}
-	}
 	for din := 0; din < 2; din++ {
 		maxIn, out, err := w.K.ComputeMaxInAmtGivenMaxTicksCrossed(ctx, p.ID, p.Denoms[din], 1)
 		if err != nil {
@@ -355,6 +338,23 @@ func dustCorpus(w *amm.World, ctx sdk.Context, add func(term string, info map[st
 				// back across the tick, and a little further the same way
 				_ = step(c, amm.Op{Kind: "swap", Sender: 2, ExactIn: true, DenomIn: 1 - din, Amount: new(big.Int).Div(a, big.NewInt(3)), Tag: tag + "/back"})
 				_ = step(c, amm.Op{Kind: "swap", Sender: 2, ExactIn: true, DenomIn: din, Amount: new(big.Int).Div(a, big.NewInt(7)), Tag: tag + "/on"})
+			}
+		}
+	}
+	// a position whose upper (lower) tick IS the pool's current tick is out of range (in range): open
+	// both, deep, then trade both ways - the curve is the one of the positions that contain the cursor
+	if pool, found, _ := w.K.GetPool(ctx, p.ID); found {
+		cur := pool.CurrentTick
+		_ = step(ctx, amm.Op{Kind: "create", Sender: 2, Lower: cur - 30, Upper: cur, Base: zero, Quote: new(big.Int).Mul(big.NewInt(40), e26), MinBase: zero, MinQuote: zero, Tag: "corpus/boundary/upper-on-current-tick"})
+		_ = step(ctx, amm.Op{Kind: "create", Sender: 2, Lower: cur, Upper: cur + 25, Base: new(big.Int).Mul(big.NewInt(3), e26), Quote: new(big.Int).Mul(big.NewInt(3), e26), MinBase: zero, MinQuote: zero, Tag: "corpus/boundary/lower-on-current-tick"})
+		for _, o := range []amm.Op{
+			{Kind: "swap", Sender: 2, ExactIn: true, DenomIn: 1, Amount: new(big.Int).Div(e26, big.NewInt(1000)), Tag: "corpus/boundary/quote-in"},
+			{Kind: "swap", Sender: 2, ExactIn: true, DenomIn: 0, Amount: new(big.Int).Div(e26, big.NewInt(700)), Tag: "corpus/boundary/base-in"},
+			{Kind: "swap", Sender: 2, ExactIn: false, DenomIn: 0, Amount: new(big.Int).Div(e26, big.NewInt(900)), Tag: "corpus/boundary/exact-out-base-in"},
+		} {
+			c, _ := ctx.CacheContext()
+			if err := step(c, o); err == nil {
+				st.Nontriv(o.Tag)
 			}
 		}
 	}
